@@ -42,8 +42,8 @@ def words_for(k, rng, tier, nrand):
     return ws, False
 
 
-QUICK_K = [1, 2, 3, 4, 5, 6, 8, 11, 15, 16, 26, 32, 57, 64]
-THOROUGH_K = list(range(1, 33)) + [40, 48, 57, 64, 72, 96, 120, 128]      # all widths up to 32, then the common ones (all 1..128 took > 90 min)
+QUICK_K = [1, 2, 3, 4, 5, 6, 8, 11, 12, 15, 16, 26, 27, 32, 57, 58, 64]      # (2^m-m-1 and 2^m-m: the widths at which the number of check bits changes)
+THOROUGH_K = list(range(1, 33)) + [40, 48, 57, 58, 64, 72, 96, 120, 121, 128]      # all widths up to 32, then the common ones (all 1..128 took > 90 min)
 
 
 def _slices(k, tier):
